@@ -50,7 +50,7 @@ from harness.core import LeanDriver
 from harness.props import _emission_common as EC
 
 MANIFEST_ENTRY = {
-    "text": "Lean theorems over any list of emissions with arbitrary event schedules: ledger (active = previous active + new - repaired - naturally repaired - expired, every day incl. day 0), emis_split and emis_active (daily emissions = summed rates of emissions active at the end of the day, split into mitigable/non-mitigable), counts (new/repaired/naturally repaired/expired summed over the run = record counts, by telescoping), reconstruct_row (the COMPLETE row of every day - new, active, repaired, naturally repaired, expired, the three emission sums - is the function recRow of the records' start date, end date, end kind, rate, repairability; from reconstruct_em, reconstruct_new, reconstruct_ended, proved from the emission invariants, frozen-after-end and monotone-active-days lemmas). The 'active AND emitting' clause is stated under both readings of 'emitting at the end of the day' (flag after the update = is_emitting() when the row is written; flag during the day = what days_emitting counts; emitting_conventions, daysEmitting_step), proved for persistent sources (C11_partial, C11_during_partial) and refuted for intermittent ones on one witness that violates both readings (f4bWitness_day1, C11_counterexample, C11_during_counterexample; known finding F4b). Tied to the code by per-day correspondence on real Component/Source objects (rows, records, Lean-side reconstruction, emitting sums) and by whole-run conformance of timeseries.csv with the model fed by the run's own records and logged events; the oracles check the real accumulators against observed status transitions, recompute every count column of every day from the two output files alone, and judge the emitting clause by its discrepancy.",
+    "text": "Lean theorems over any list of emissions with arbitrary event schedules: ledger (active = previous active + new - repaired - naturally repaired - expired, every day incl. day 0), emis_split and emis_active (daily emissions = summed rates of emissions active at the end of the day, split into mitigable/non-mitigable), counts (new/repaired/naturally repaired/expired summed over the run = record counts, by telescoping), reconstruct_row (the COMPLETE row of every day - new, active, repaired, naturally repaired, expired, the three emission sums - is the function recRow of the records' start date, end date, end kind, rate, repairability; from reconstruct_em, reconstruct_new, reconstruct_ended, proved from the emission invariants, frozen-after-end and monotone-active-days lemmas). The 'active AND emitting' clause is stated under both readings of 'emitting at the end of the day' (flag after the update = is_emitting() when the row is written; flag during the day = what days_emitting counts; emitting_conventions, daysEmitting_step), proved for persistent sources (C11_partial, C11_during_partial) and refuted for intermittent ones on one witness that violates both readings (f4bWitness_day1, C11_counterexample, C11_during_counterexample; known finding F4b). Tied to the code by per-day correspondence on real Component/Source objects (rows, records, Lean-side reconstruction, emitting sums) and by whole-run conformance of timeseries.csv with the model fed by the run's own records and logged events; the oracles check the real accumulators against observed status transitions, recompute every count column of every day from the two output files alone, and judge the emitting clause by its discrepancy. Layer 3 (every run): the methods of the four emission classes are translated from the current source to Lean (harness/extract/py2lean.py, emission_src.py -> Generated/EmissionSrc.lean) and Props/EmissionTie.lean + EmissionOnSource.lean are re-checked: each translated method equals the model's function through the abstraction, iterating them is Emission.run (run_tie), and the C02/C03/C04 statements hold of the translated code; a method outside the translated subset is a note, a failing tie theorem a broken obligation.",
     "design_ref": "DESIGN.md 5.11",
     "note": "trusted: Lean kernel + standard axioms; model tied by sampled correspondence; timeseries.csv writes floats with 5 decimals, so daily emission sums are compared with the exact rational 86.4 x sum(rate) within 2e-5 (rates dyadic); 'expired' has no timeseries column and is derived from the records; the model has no counters (rows are sums of transition indicators), the accumulator code is covered by the accumulator oracle on real objects only",
     "technique": "Lean 4 proofs (per-emission step lemmas summed over the world, telescoping, invariant-based reconstruction) + differential correspondence + direct oracles on real objects and on the two output files",
